@@ -4,72 +4,19 @@ from __future__ import annotations
 import ast
 from typing import Any, Iterable
 
-from ..model import AnalysisError, FuncInfo, Program, dotted, norm, self_attr, stmts_no_doc, walk_no_nested
+from ..model import AnalysisError, ClassInfo, FuncInfo, Program, dotted, norm, self_attr, stmts_no_doc, walk_no_nested
 from ..report import RuleContext
 from ..walker import Walker
 
 EXPLANATION = (
-    'Static analysis (AST dominance, mirror-image agreement, regex language equivalence). Decides: SP-GUARD (_find_spacing only '
-    'collects tokens dominated by an isinstance(token, Newline | Whitespace) test, skips only empty tokens before the run and '
-    'stops at the first other token), SP-RANGE (each raw setter deletes exactly [current[0], current[-1]] of its own side\'s '
+    'Static analysis (AST dominance, mirror-image agreement, regex language equivalence). Decides: SP-SEM (_find_spacing, interpreted from its '
+    'AST over every sequence of up to 5 abstract neighbour tokens -- 7 in the thorough tier -- returns exactly the non-empty blank tokens '
+    'of the first blank run after the leading zero-width tokens, so no mark lies inside the spliced range), SP-RANGE (each raw setter deletes exactly [current[0], current[-1]] of its own side\'s '
     'getter result or inserts adjacent to first_token/last_token on that side; before/after are mirror images: get_prev + '
     'reversed vs get_next), SP-ROUTE (the string accessors route to the raw accessors of the same side through '
     '_tokens_to_text/_text_to_tokens), SPACING-RE (the two alternatives of the spacing regex are language-equivalent to the '
     'grammar terminals WHITESPACE and _NEWLINE, map to the classes registered for those terminals, and every string of blanks '
     'and newlines is covered without loss). It does NOT decide which invisible tokens neighbour a model at run time.')
-
-
-def rule_sp_guard(ctx: RuleContext, p: Program, rid: str) -> None:
-    ctx.rule(rid, '_find_spacing(token, succ): first skips tokens with empty text, then collects while isinstance(token, '
-                  'Newline | Whitespace) (appending only non-empty ones) and stops at the first other token; it only advances with succ')
-    f = p.func('models.internal.spacing_accessors', '_find_spacing')
-    tok, succ = f.params[0], f.params[1]
-    loops = []
-    for st in stmts_no_doc(f.node.body):
-        if isinstance(st, ast.While):
-            loops.append(st)
-        elif isinstance(st, ast.Assign) and norm(st.targets[0]) == tok and isinstance(st.value, ast.Call) \
-                and isinstance(st.value.func, ast.Name) and [norm(a) for a in st.value.args] == [tok, succ]:
-            # a helper extracted from the scan: `token = helper(token, succ)` -> its loops with the parameters renamed
-            h = f.module.symbols.get(st.value.func.id)
-            if isinstance(h, FuncInfo) and len(h.params) == 2:
-                hb = stmts_no_doc(h.node.body)
-                rets = [x for x in hb if isinstance(x, ast.Return)]
-                if len(rets) == 1 and norm(rets[0].value) == h.params[0] and all(isinstance(x, (ast.While, ast.Return)) for x in hb):
-                    class Ren(ast.NodeTransformer):
-                        def visit_Name(self, n: ast.Name) -> ast.AST:
-                            return ast.copy_location(ast.Name(id={h.params[0]: tok, h.params[1]: succ}.get(n.id, n.id), ctx=n.ctx), n)
-                    import copy as _copy
-                    loops.extend(Ren().visit(_copy.deepcopy(x)) for x in hb if isinstance(x, ast.While))
-    problems: list[str] = []
-    if len(loops) != 2:
-        raise AnalysisError('SP-GUARD: expected a skip loop and a collect loop in _find_spacing')
-    skip, coll = loops
-    t = norm(skip.test)
-    if not (f'not {tok}.raw_text' in t and f'{tok} is not None' in t):
-        problems.append(f'skip loop condition is `{t}`: must skip only empty-text tokens')
-    if any(isinstance(x, ast.Call) and isinstance(x.func, ast.Attribute) and x.func.attr in ('append', 'extend', 'insert')
-           for x in ast.walk(skip)):
-        problems.append('skip loop collects tokens')
-    ct = coll.test
-    if not (isinstance(ct, ast.Call) and norm(ct.func) == 'isinstance' and norm(ct.args[0]) == tok
-            and sorted(x.strip() for x in norm(ct.args[1]).strip('()').replace(',', '|').split('|')) == ['Newline', 'Whitespace']):
-        problems.append(f'collect loop runs while `{norm(ct)}`, not while the token is a Newline or Whitespace')
-    apps = [x for x in ast.walk(coll) if isinstance(x, ast.Call) and isinstance(x.func, ast.Attribute) and x.func.attr == 'append']
-    if len(apps) != 1 or norm(apps[0].args[0]) != tok:
-        problems.append('collect loop does not append exactly the current token')
-    for lp in (skip, coll):
-        adv = [a for a in ast.walk(lp) if isinstance(a, ast.Assign) and norm(a.targets[0]) == tok]
-        if len(adv) != 1 or norm(adv[0].value) != f'{succ}({tok})':
-            problems.append(f'loop advances with {[norm(a.value) for a in adv]}, not {succ}({tok})')
-        if any(isinstance(x, (ast.Break, ast.Continue)) for x in ast.walk(lp)):
-            problems.append('loop has break/continue (tokens could be skipped inside the run)')
-    other_app = [x for x in walk_no_nested(f.node) if isinstance(x, ast.Call) and isinstance(x.func, ast.Attribute)
-                 and x.func.attr in ('append', 'extend', 'insert') and not any(norm(x) == norm(y) for y in ast.walk(coll) if isinstance(y, ast.Call))]
-    if other_app:
-        problems.append('tokens are collected outside the guarded loop')
-    ctx.check(not problems, rid, 'models.internal.spacing_accessors:_find_spacing', '; '.join(problems) or 'ok',
-              '; '.join(problems), f.where, note='skip empty; collect while Newline|Whitespace; advance by succ')
 
 
 def rule_sp_range(ctx: RuleContext, p: Program, rid: str) -> None:
@@ -164,11 +111,112 @@ def rule_sp_route(ctx: RuleContext, p: Program, rid: str) -> None:
 
 
 def run(ctx: RuleContext, p: Program) -> None:
-    ctx.try_rule(rule_sp_guard, p, 'SP-GUARD')
     ctx.try_rule(rule_sp_range, p, 'SP-RANGE')
     ctx.try_rule(rule_sp_route, p, 'SP-ROUTE')
+    ctx.try_rule(rule_sp_sem, p, 'SP-SEM', 5 if ctx.tier == 'quick' else 7)
     from . import grammar_rules
     ctx.try_rule(grammar_rules.rule_spacing_re, p, 'SPACING-RE')
     ctx.not_decided += ['which invisible tokens neighbour a model at run time', 'that adjacent models see the same run (follows from '
                         'the mirror-image getters, not observed)']
     ctx.assumptions += ['TokenStore.get_prev/get_next/splice/insert semantics (C07)']
+
+
+# ====================================================================== SP-SEM (added after seeded round 3)
+def rule_sp_sem(ctx: RuleContext, p: Program, rid: str, max_len: int = 5) -> None:
+    """finite-domain abstract evaluation of _find_spacing over every sequence of abstract tokens up to max_len"""
+    import itertools
+    from . import possem
+    from .tokenstore import TS
+    ctx.rule(rid, '_find_spacing, evaluated from its AST over every sequence of up to %d abstract tokens (zero-width mark, empty '
+                  'blank token, non-empty blank token, other token): it returns exactly the non-empty blank tokens of the first run of '
+                  'blank-class tokens that follows the leading zero-width tokens -- so only zero-width tokens separate the run from the '
+                  'model, every returned token is a non-empty Whitespace/Newline, and no mark or other token lies between the first and '
+                  'the last returned token (the setter splices first..last)' % max_len)
+    m = p.module('models.internal.spacing_accessors')
+    fn = next((f for f in p.functions_in(m) if f.qualname == '_find_spacing'), None)
+    if fn is None:
+        raise AnalysisError('SP-SEM: _find_spacing vanished')
+    ts = TS(p)
+
+    class Tok(possem.Obj):
+        pass
+
+    class_of = {'Eol': p.cls('Eol'), 'Whitespace': p.cls('Whitespace'), 'Newline': p.cls('Newline'), 'Account': p.cls('Account')}
+
+    class Interp(possem.PosInterp):
+        tag = 'SP-SEM'
+
+        def expr(self, e: Any, env: dict) -> Any:            # type: ignore[override]
+            if isinstance(e, (ast.Name, ast.Attribute)) and not (isinstance(e, ast.Name) and e.id in env):
+                sym_ = p.resolve_expr(m, e)
+                if isinstance(sym_, ClassInfo):
+                    return sym_
+                if isinstance(e, ast.Name) and isinstance(sym_, FuncInfo):
+                    return sym_                                 # a helper extracted from the scan
+            if isinstance(e, ast.BinOp) and isinstance(e.op, ast.BitOr):
+                l, r = self.expr(e.left, env), self.expr(e.right, env)
+                flat = []
+                for x in (l, r):
+                    flat.extend(x if isinstance(x, tuple) else [x])
+                return tuple(flat)
+            if isinstance(e, ast.Call) and isinstance(e.func, ast.Name) and e.func.id == 'isinstance' and e.func.id not in env:
+                v = self.expr(e.args[0], env)
+                c = self.expr(e.args[1], env)
+                cs = c if isinstance(c, tuple) else (c,)
+                if not all(isinstance(k, ClassInfo) for k in cs):
+                    raise self.err(e, 'isinstance against something that is not a repository class')
+                return isinstance(v, possem.Obj) and any(class_of[v.cls].is_subclass_of(k) for k in cs)
+            if isinstance(e, ast.Call) and isinstance(e.func, ast.Name) and callable(env.get(e.func.id)):
+                return env[e.func.id](*[self.expr(a, env) for a in e.args])
+            return super().expr(e, env)
+
+    def reference(seq: str) -> list[int]:
+        i = 0
+        while i < len(seq) and seq[i] in 'Zz':
+            i += 1
+        out = []
+        while i < len(seq) and seq[i] in 'zS':
+            if seq[i] == 'S':
+                out.append(i)
+            i += 1
+        return out
+
+    kinds = {'Z': ('Eol', ''), 'z': ('Whitespace', ''), 'S': ('Whitespace', ' '), 'O': ('Account', 'x')}
+    n = 0
+    first_bad: Optional[str] = None
+    for k in range(0, max_len + 1):
+        for seq in map(''.join, itertools.product('ZzSO', repeat=k)):
+            toks = [Tok(kinds[ch][0], {'raw_text': kinds[ch][1]}, label=f'{ch}{i}') for i, ch in enumerate(seq)]
+            # two variants of a blank-class token: Whitespace and Newline
+            for nl_variant in (False, True):
+                if nl_variant:
+                    if 'S' not in seq and 'z' not in seq:
+                        continue
+                    for t in toks:
+                        if t.cls == 'Whitespace':
+                            t.cls = 'Newline'
+                nxt = {id(t): (toks[i + 1] if i + 1 < len(toks) else None) for i, t in enumerate(toks)}
+                it = Interp(ts, [])
+                res = it.call_function(fn, [toks[0] if toks else None, lambda t: nxt[id(t)]], {})
+                n += 1
+                if not isinstance(res, (list, tuple)):
+                    raise AnalysisError(f'SP-SEM: _find_spacing returned {res!r}')
+                got = [next(i for i, t in enumerate(toks) if t is r) for r in res]
+                want = reference(seq)
+                if got != want and first_bad is None:
+                    show = ' '.join({'Z': 'mark', 'z': 'empty-blank', 'S': 'blank', 'O': 'other'}[c] for c in seq)
+                    why = ''
+                    if any(seq[i] != 'S' for i in got):
+                        why = 'a token that is not a non-empty blank is returned'
+                    elif got and any(seq[i] in 'ZO' for i in range(got[0], got[-1] + 1)):
+                        why = ('a zero-width mark lies between the first and the last returned token: the setter splices that whole range and '
+                               'removes the mark (an end-of-line mark or a field placeholder that the tree still owns) from the store')
+                    elif len(got) < len(want):
+                        why = 'part of the adjacent run is not returned'
+                    else:
+                        why = 'tokens beyond the adjacent run are returned'
+                    first_bad = f'for the neighbours [{show}] it returns positions {got} where the adjacent run is {want}: {why}'
+    if n < 1000:
+        raise AnalysisError(f'SP-SEM: only {n} sequences evaluated')
+    ctx.check(first_bad is None, rid, 'models.internal.spacing_accessors:_find_spacing', 'adjacent run', first_bad or '', fn.where,
+              note=f'{n} token sequences up to length {max_len}')
